@@ -105,25 +105,25 @@ const (
 	vfOther
 )
 
-type vAttempt struct{ pre, get, set, rst, task int }
+type vfVAttempt struct{ pre, get, set, rst, task int }
 
-type vScript struct {
+type vfVScript struct {
 	adv, ac0 bool
 	cancelAt int64 // ns of virtual time since Dial was called; < 0: never
 	// cancelIn > 0: the context is cancelled from inside DialFunc call number cancelIn-1 (not by a
 	// timer): the cancellation falls after the wait that preceded the call and before the call
 	// returns. The case line then carries the instant of that call as cancelAt; 0: not used.
 	cancelIn int
-	atts     []vAttempt
+	atts     []vfVAttempt
 }
 
 // vSource is what the harness read from dialer.go.
-type vSource struct {
+type vfVSource struct {
 	leak bool     // dial(): the `setAutoconf` error path returns without conn.Close()
 	done []string // calls of the done closure in order
 }
 
-func (s vSource) doneCode() int {
+func (s vfVSource) doneCode() int {
 	c := 0
 	for _, d := range s.done {
 		c *= 10
@@ -143,8 +143,8 @@ func (s vSource) doneCode() int {
 
 // vScanDial reads, from dialer.go in the package directory, how dial() treats the socket when
 // setAutoconf fails and in which order the done closure undoes things.
-func vScanDial() (vSource, error) {
-	var src vSource
+func vfVScanDial() (vfVSource, error) {
+	var src vfVSource
 	fset := token.NewFileSet()
 	f, err := parser.ParseFile(fset, "dialer.go", nil, 0)
 	if err != nil {
@@ -234,33 +234,33 @@ func vScanDial() (vSource, error) {
 }
 
 // vConn is the fake connection; its clean-up calls are logged.
-type vConn struct {
-	h *vRun
+type vfVConn struct {
+	h *vfVRun
 	k int
 }
 
-func (c *vConn) ReadFrom() (ndp.Message, *ipv6.ControlMessage, netip.Addr, error) {
+func (c *vfVConn) ReadFrom() (ndp.Message, *ipv6.ControlMessage, netip.Addr, error) {
 	return nil, nil, netip.Addr{}, errors.New("vConn: not readable")
 }
-func (c *vConn) SetReadDeadline(time.Time) error { return nil }
-func (c *vConn) WriteTo(ndp.Message, *ipv6.ControlMessage, netip.Addr) error {
+func (c *vfVConn) SetReadDeadline(time.Time) error { return nil }
+func (c *vfVConn) WriteTo(ndp.Message, *ipv6.ControlMessage, netip.Addr) error {
 	return errors.New("vConn: not writable")
 }
-func (c *vConn) LeaveGroup(netip.Addr) error { c.h.ev("lv", int64(c.k)); return nil }
-func (c *vConn) Close() error                { c.h.ev("cl", int64(c.k)); return nil }
+func (c *vfVConn) LeaveGroup(netip.Addr) error { c.h.ev("lv", int64(c.k)); return nil }
+func (c *vfVConn) Close() error                { c.h.ev("cl", int64(c.k)); return nil }
 
-var _ Conn = &vConn{}
+var _ Conn = &vfVConn{}
 
 // vState is the recording, fault-injecting State.  A write takes effect iff it does not fail.
-type vState struct {
-	h   *vRun
+type vfVState struct {
+	h   *vfVRun
 	ac  bool
 	tag string // "get#k" / "set#k" / "rst#k": identifies the injected error in messages
 	get int
 	set int
 }
 
-func vFaultErr(f int, tag string) error {
+func vfVFaultErr(f int, tag string) error {
 	switch f {
 	case vfPermission:
 		return &fs.PathError{Op: "open", Path: "/proc/sys/net/ipv6/conf/vf0/autoconf " + tag, Err: syscall.EACCES}
@@ -272,38 +272,38 @@ func vFaultErr(f int, tag string) error {
 	return nil
 }
 
-func (s *vState) IPv6Autoconf(string) (bool, error) {
+func (s *vfVState) IPv6Autoconf(string) (bool, error) {
 	if s.get != vfNone {
 		s.h.ev("g", 0, int64(s.get))
-		return false, vFaultErr(s.get, "get#"+s.tag)
+		return false, vfVFaultErr(s.get, "get#"+s.tag)
 	}
-	s.h.ev("g", vB(s.ac), 0)
+	s.h.ev("g", vfVB(s.ac), 0)
 	return s.ac, nil
 }
 
-func (s *vState) IPv6Forwarding(string) (bool, error) { return true, nil }
+func (s *vfVState) IPv6Forwarding(string) (bool, error) { return true, nil }
 
-func (s *vState) SetIPv6Autoconf(_ string, v bool) error {
-	s.h.ev("s", vB(v), int64(s.set))
+func (s *vfVState) SetIPv6Autoconf(_ string, v bool) error {
+	s.h.ev("s", vfVB(v), int64(s.set))
 	if s.set != vfNone {
-		return vFaultErr(s.set, "set#"+s.tag)
+		return vfVFaultErr(s.set, "set#"+s.tag)
 	}
 	s.ac = v
 	return nil
 }
 
-func vB(b bool) int64 {
+func vfVB(b bool) int64 {
 	if b {
 		return 1
 	}
 	return 0
 }
 
-type vRun struct {
-	sc  vScript
-	src vSource
+type vfVRun struct {
+	sc  vfVScript
+	src vfVSource
 	d   *Dialer
-	st  *vState
+	st  *vfVState
 
 	mu     sync.Mutex
 	tr     *vfh.Toks
@@ -318,7 +318,7 @@ type vRun struct {
 }
 
 // ev logs one event, preceded by the virtual time slept since the previous one.
-func (h *vRun) ev(tag string, args ...int64) {
+func (h *vfVRun) ev(tag string, args ...int64) {
 	h.mu.Lock()
 	defer h.mu.Unlock()
 	now := time.Now()
@@ -333,15 +333,15 @@ func (h *vRun) ev(tag string, args ...int64) {
 	}
 }
 
-func (h *vRun) att(k int) vAttempt {
+func (h *vfVRun) att(k int) vfVAttempt {
 	if k < len(h.sc.atts) {
 		return h.sc.atts[k]
 	}
-	return vAttempt{}
+	return vfVAttempt{}
 }
 
 // vDialErr builds an error of the class exactly as init tells classes apart; k varies the shape.
-func vDialErr(class, k int, what string) error {
+func vfVDialErr(class, k int, what string) error {
 	tag := fmt.Sprintf("%s#%d", what, k)
 	switch class {
 	case vdLinkNotReady:
@@ -386,7 +386,7 @@ func vDialErr(class, k int, what string) error {
 	return nil
 }
 
-func vTaskErr(class, k int) error {
+func vfVTaskErr(class, k int) error {
 	tag := fmt.Sprintf("task#%d", k)
 	switch class {
 	case vtLinkChange:
@@ -395,19 +395,19 @@ func vTaskErr(class, k int) error {
 		}
 		return ErrLinkChange
 	case vtSyscall:
-		return vDialErr(vdSyscall, k, "task")
+		return vfVDialErr(vdSyscall, k, "task")
 	case vtPermission:
-		return vDialErr(vdPermission, k, "task")
+		return vfVDialErr(vdPermission, k, "task")
 	case vtRetries:
 		return fmt.Errorf("%s: %w", tag, errors.New("exhausted receive retries"))
 	case vtOther:
-		return vDialErr(vdOther, k, "task")
+		return vfVDialErr(vdOther, k, "task")
 	}
 	return nil
 }
 
 // vClass is the class of an error returned by DialFunc.
-func vClass(err error) int64 {
+func vfVClass(err error) int64 {
 	var (
 		serr *os.SyscallError
 		perr *fs.PathError
@@ -427,14 +427,14 @@ func vClass(err error) int64 {
 	}
 }
 
-type vAbort struct{}
+type vfVAbort struct{}
 
 // dialFunc is DialFunc: the replica of (*Dialer).dial().
-func (h *vRun) dialFunc() (*DialContext, error) {
+func (h *vfVRun) dialFunc() (*DialContext, error) {
 	k := h.k
 	h.k++
 	if k > 400 {
-		panic(vAbort{}) // Dial does not terminate
+		panic(vfVAbort{}) // Dial does not terminate
 	}
 	h.ev("d", int64(k))
 	inDial := h.sc.cancelIn > 0 && k == h.sc.cancelIn-1
@@ -443,7 +443,7 @@ func (h *vRun) dialFunc() (*DialContext, error) {
 		h.cancel()
 	}
 	dctx, err := h.dialReplica(k, h.att(k))
-	h.ev("dr", int64(k), vClass(err))
+	h.ev("dr", int64(k), vfVClass(err))
 	// a failed call that cancelled the context: if init goes on to its next select, that select
 	// sees the cancellation at once and Dial returns nil — the "x" (select observed ctx.Done) is
 	// logged then (ret), not when there is no further select (last attempt, fatal error)
@@ -451,12 +451,12 @@ func (h *vRun) dialFunc() (*DialContext, error) {
 	return dctx, err
 }
 
-func (h *vRun) dialReplica(k int, a vAttempt) (*DialContext, error) {
+func (h *vfVRun) dialReplica(k int, a vfVAttempt) (*DialContext, error) {
 	// lookupInterface, checkInterface, dialNDP: scripted
 	if a.pre != vdOK {
-		return nil, vDialErr(a.pre, k, "dial")
+		return nil, vfVDialErr(a.pre, k, "dial")
 	}
-	conn := &vConn{h: h, k: k}
+	conn := &vfVConn{h: h, k: k}
 	h.ev("o", int64(k))
 
 	var restore func() error
@@ -499,8 +499,8 @@ func (h *vRun) dialReplica(k int, a vAttempt) (*DialContext, error) {
 	}, nil
 }
 
-func (h *vRun) fn(ctx context.Context, dctx *DialContext) error {
-	k := dctx.Conn.(*vConn).k
+func (h *vfVRun) fn(ctx context.Context, dctx *DialContext) error {
+	k := dctx.Conn.(*vfVConn).k
 	h.ev("fs", int64(k))
 	a := h.att(k)
 	var err error
@@ -511,16 +511,16 @@ func (h *vRun) fn(ctx context.Context, dctx *DialContext) error {
 		h.cancel()
 		err = ctx.Err()
 	default:
-		err = vTaskErr(a.task, k)
+		err = vfVTaskErr(a.task, k)
 	}
 	h.ev("fr", int64(k), int64(a.task))
 	return err
 }
 
-var vTagRE = regexp.MustCompile(`(dial|task|get|set|rst)#(\d+)`)
+var vfVTagRE = regexp.MustCompile(`(dial|task|get|set|rst)#(\d+)`)
 
 // ret logs what Dial returned, by the origin of the error.
-func (h *vRun) ret(err error) {
+func (h *vfVRun) ret(err error) {
 	if err == nil {
 		if h.pendingX {
 			h.ev("x")
@@ -529,7 +529,7 @@ func (h *vRun) ret(err error) {
 		return
 	}
 	msg := err.Error()
-	m := vTagRE.FindStringSubmatch(msg)
+	m := vfVTagRE.FindStringSubmatch(msg)
 	var k int64 = -1
 	if m != nil {
 		k, _ = strconv.ParseInt(m[2], 10, 64)
@@ -548,7 +548,7 @@ func (h *vRun) ret(err error) {
 	}
 }
 
-type vResult struct {
+type vfVResult struct {
 	impl     string
 	consumed int
 	waits    [][2]int64
@@ -556,11 +556,11 @@ type vResult struct {
 }
 
 // vExec runs one script against a fresh Dialer inside a synctest bubble.
-func vExec(t *testing.T, src vSource, sc vScript) vResult {
-	var res vResult
+func vfVExec(t *testing.T, src vfVSource, sc vfVScript) vfVResult {
+	var res vfVResult
 	synctest.Test(t, func(t *testing.T) {
-		h := &vRun{sc: sc, src: src, tr: new(vfh.Toks), cancelT: -1}
-		h.st = &vState{h: h, ac: sc.ac0}
+		h := &vfVRun{sc: sc, src: src, tr: new(vfh.Toks), cancelT: -1}
+		h.st = &vfVState{h: h, ac: sc.ac0}
 		mode := Monitor
 		if sc.adv {
 			mode = Advertise
@@ -586,7 +586,7 @@ func vExec(t *testing.T, src vSource, sc vScript) vResult {
 		func() {
 			defer func() {
 				if r := recover(); r != nil {
-					if _, ok := r.(vAbort); !ok {
+					if _, ok := r.(vfVAbort); !ok {
 						panic(r)
 					}
 					aborted = true
@@ -601,7 +601,7 @@ func vExec(t *testing.T, src vSource, sc vScript) vResult {
 		if aborted {
 			res.impl = "abort"
 		} else {
-			res.impl = h.tr.S("fin").I(vB(h.st.ac)).String()
+			res.impl = h.tr.S("fin").I(vfVB(h.st.ac)).String()
 		}
 		res.consumed = h.k
 		res.waits = h.waits
@@ -610,7 +610,7 @@ func vExec(t *testing.T, src vSource, sc vScript) vResult {
 	return res
 }
 
-func vCase(op string, src vSource, sc vScript) string {
+func vfVCase(op string, src vfVSource, sc vfVScript) string {
 	c := new(vfh.Toks).S(op).B(src.leak).N(src.doneCode()).B(sc.adv).B(sc.ac0).I(sc.cancelAt).N(len(sc.atts))
 	for _, a := range sc.atts {
 		c.N(a.pre).N(a.get).N(a.set).N(a.rst).N(a.task)
@@ -618,11 +618,11 @@ func vCase(op string, src vSource, sc vScript) string {
 	return c.String()
 }
 
-type vDriver struct {
+type vfVDriver struct {
 	t    *testing.T
 	out  *vfh.Out
 	op   string
-	src  vSource
+	src  vfVSource
 	r    *vfh.Rand
 	seen map[string]bool
 	runs int
@@ -630,22 +630,22 @@ type vDriver struct {
 
 // vTrim cuts the script to the attempts the run consumed and zeroes the fields of an attempt
 // that cannot have had an effect, so that equal runs have equal case lines.
-func vTrim(sc vScript, consumed int) vScript {
+func vfVTrim(sc vfVScript, consumed int) vfVScript {
 	n := len(sc.atts)
 	if consumed < n {
 		n = consumed
 	}
-	atts := make([]vAttempt, n)
+	atts := make([]vfVAttempt, n)
 	for i, a := range sc.atts[:n] {
 		switch {
 		case a.pre != vdOK:
-			a = vAttempt{pre: a.pre}
+			a = vfVAttempt{pre: a.pre}
 		case !sc.adv:
-			a = vAttempt{task: a.task}
+			a = vfVAttempt{task: a.task}
 		case a.get != vfNone:
-			a = vAttempt{get: a.get}
+			a = vfVAttempt{get: a.get}
 		case a.set != vfNone && a.set != vfPermission:
-			a = vAttempt{set: a.set}
+			a = vfVAttempt{set: a.set}
 		}
 		atts[i] = a
 	}
@@ -656,7 +656,7 @@ func vTrim(sc vScript, consumed int) vScript {
 // run executes a script without cancellation, then once more for a cancellation instant inside
 // every positive wait the first run showed (all of them, or `sample` random ones).  Scripts
 // are trimmed to the attempts the run consumed.  Returns the uncancelled result.
-func (v *vDriver) run(sc vScript, sample int) vResult {
+func (v *vfVDriver) run(sc vfVScript, sample int) vfVResult {
 	sc.cancelAt = -1
 	sc.cancelIn = 0
 	res := v.emit(sc)
@@ -668,9 +668,9 @@ func (v *vDriver) run(sc vScript, sample int) vResult {
 			continue
 		}
 		c := sc
-		c.atts = append([]vAttempt(nil), sc.atts...)
+		c.atts = append([]vfVAttempt(nil), sc.atts...)
 		for len(c.atts) <= k {
-			c.atts = append(c.atts, vAttempt{})
+			c.atts = append(c.atts, vfVAttempt{})
 		}
 		if c.atts[k].succeeds(sc.adv) {
 			c.atts[k].task = vtCancelled
@@ -708,13 +708,13 @@ func (v *vDriver) run(sc vScript, sample int) vResult {
 	return res
 }
 
-func (v *vDriver) emit(sc vScript) vResult {
-	res := vExec(v.t, v.src, sc)
+func (v *vfVDriver) emit(sc vfVScript) vfVResult {
+	res := vfVExec(v.t, v.src, sc)
 	if sc.cancelIn > 0 {
 		sc.cancelAt = res.cancelT
 	}
-	sc = vTrim(sc, res.consumed)
-	line := vCase(v.op, v.src, sc)
+	sc = vfVTrim(sc, res.consumed)
+	line := vfVCase(v.op, v.src, sc)
 	v.runs++
 	if !v.seen[line] {
 		v.seen[line] = true
@@ -724,7 +724,7 @@ func (v *vDriver) emit(sc vScript) vResult {
 }
 
 // succeeds: does DialFunc return a DialContext for this attempt
-func (a vAttempt) succeeds(adv bool) bool {
+func (a vfVAttempt) succeeds(adv bool) bool {
 	if a.pre != vdOK {
 		return false
 	}
@@ -737,13 +737,13 @@ func (a vAttempt) succeeds(adv bool) bool {
 // dfs enumerates every run of at most `budget` outcomes (a failed DialFunc call is one
 // outcome, a successful one and the task's outcome are two): a script is extended only when the
 // run wanted more attempts than it had.
-func (v *vDriver) dfs(sc vScript, budget int, alphabet []vAttempt) {
+func (v *vfVDriver) dfs(sc vfVScript, budget int, alphabet []vfVAttempt) {
 	res := v.run(sc, 0)
 	if res.consumed <= len(sc.atts) || budget == 0 {
 		return
 	}
 	for _, a := range alphabet {
-		if a == (vAttempt{}) {
+		if a == (vfVAttempt{}) {
 			continue // what the end of the script stands for; just run
 		}
 		cost := 1
@@ -754,21 +754,21 @@ func (v *vDriver) dfs(sc vScript, budget int, alphabet []vAttempt) {
 			continue
 		}
 		ext := sc
-		ext.atts = append(append([]vAttempt(nil), sc.atts...), a)
+		ext.atts = append(append([]vfVAttempt(nil), sc.atts...), a)
 		v.dfs(ext, budget-cost, alphabet)
 	}
 }
 
 // vPlainAlphabet: all dial outcomes, all task outcomes, no State faults.
-func vPlainAlphabet() []vAttempt {
-	var al []vAttempt
+func vfVPlainAlphabet() []vfVAttempt {
+	var al []vfVAttempt
 	for pre := vdOK; pre <= vdOther; pre++ {
 		if pre != vdOK {
-			al = append(al, vAttempt{pre: pre})
+			al = append(al, vfVAttempt{pre: pre})
 			continue
 		}
 		for task := vtNil; task <= vtCancelledErr; task++ {
-			al = append(al, vAttempt{task: task})
+			al = append(al, vfVAttempt{task: task})
 		}
 	}
 	return al
@@ -777,29 +777,29 @@ func vPlainAlphabet() []vAttempt {
 // vFaultAlphabet: the attempts that differ in effect on an advertising interface: every failing
 // lookup/dialNDP class, every failing read, every disabling write that makes dial fail, and
 // for a successful dial {set ok, set permission} x restore fault x task outcome.
-func vFaultAlphabet() []vAttempt {
-	var al []vAttempt
+func vfVFaultAlphabet() []vfVAttempt {
+	var al []vfVAttempt
 	for pre := vdLinkNotReady; pre <= vdOther; pre++ {
-		al = append(al, vAttempt{pre: pre})
+		al = append(al, vfVAttempt{pre: pre})
 	}
 	for get := vfPermission; get <= vfOther; get++ {
-		al = append(al, vAttempt{get: get})
+		al = append(al, vfVAttempt{get: get})
 	}
 	for _, set := range []int{vfNotExist, vfOther} {
-		al = append(al, vAttempt{set: set})
+		al = append(al, vfVAttempt{set: set})
 	}
 	for _, set := range []int{vfNone, vfPermission} {
 		for rst := vfNone; rst <= vfOther; rst++ {
 			for _, task := range []int{vtNil, vtLinkChange, vtSyscall, vtOther, vtCancelled} {
-				al = append(al, vAttempt{set: set, rst: rst, task: task})
+				al = append(al, vfVAttempt{set: set, rst: rst, task: task})
 			}
 		}
 	}
 	return al
 }
 
-func vRandAttempt(r *vfh.Rand, failPct int, faults bool) vAttempt {
-	var a vAttempt
+func vfVRandAttempt(r *vfh.Rand, failPct int, faults bool) vfVAttempt {
+	var a vfVAttempt
 	if r.Intn(100) < failPct {
 		a.pre = vdLinkNotReady + r.Intn(4)
 		if r.Chance(3, 4) {
@@ -832,9 +832,9 @@ func vRandAttempt(r *vfh.Rand, failPct int, faults bool) vAttempt {
 }
 
 // random draws long scripts, up to and beyond the 50-attempt limit.
-func (v *vDriver) random(n int, faults bool) {
+func (v *vfVDriver) random(n int, faults bool) {
 	for i := 0; i < n; i++ {
-		sc := vScript{adv: faults && v.r.Chance(5, 6), ac0: v.r.Bool()}
+		sc := vfVScript{adv: faults && v.r.Chance(5, 6), ac0: v.r.Bool()}
 		if !faults {
 			sc.adv = v.r.Chance(1, 4)
 		}
@@ -844,56 +844,56 @@ func (v *vDriver) random(n int, faults bool) {
 			length = v.r.Intn(130)
 		}
 		for j := 0; j < length; j++ {
-			sc.atts = append(sc.atts, vRandAttempt(v.r, failPct, faults))
+			sc.atts = append(sc.atts, vfVRandAttempt(v.r, failPct, faults))
 		}
 		v.run(sc, 2)
 	}
 }
 
 // limit: a recoverable cause, n failures in the retry loop of every class, then success.
-func (v *vDriver) limit(adv bool) {
+func (v *vfVDriver) limit(adv bool) {
 	for _, n := range []int{1, 12, 13, 14, 48, 49, 50, 51, 60} {
 		for cause := 0; cause < 4; cause++ {
 			for cls := vdLinkNotReady; cls <= vdOther; cls++ {
-				sc := vScript{adv: adv, ac0: cause%2 == 0}
+				sc := vfVScript{adv: adv, ac0: cause%2 == 0}
 				switch cause {
 				case 0:
-					sc.atts = append(sc.atts, vAttempt{pre: vdLinkNotReady})
+					sc.atts = append(sc.atts, vfVAttempt{pre: vdLinkNotReady})
 				case 1:
-					sc.atts = append(sc.atts, vAttempt{pre: vdSyscall})
+					sc.atts = append(sc.atts, vfVAttempt{pre: vdSyscall})
 				case 2:
-					sc.atts = append(sc.atts, vAttempt{task: vtLinkChange})
+					sc.atts = append(sc.atts, vfVAttempt{task: vtLinkChange})
 				default:
-					sc.atts = append(sc.atts, vAttempt{task: vtSyscall})
+					sc.atts = append(sc.atts, vfVAttempt{task: vtSyscall})
 				}
 				for j := 0; j < n; j++ {
-					sc.atts = append(sc.atts, vAttempt{pre: cls})
+					sc.atts = append(sc.atts, vfVAttempt{pre: cls})
 				}
-				sc.atts = append(sc.atts, vAttempt{task: vtLinkChange}, vAttempt{pre: cls}, vAttempt{task: vtOther})
+				sc.atts = append(sc.atts, vfVAttempt{task: vtLinkChange}, vfVAttempt{pre: cls}, vfVAttempt{task: vtOther})
 				v.run(sc, 3)
 			}
 		}
 	}
 }
 
-func vNewDriver(t *testing.T, r *vfh.Rand, out *vfh.Out, op string) *vDriver {
-	src, err := vScanDial()
+func vfVNewDriver(t *testing.T, r *vfh.Rand, out *vfh.Out, op string) *vfVDriver {
+	src, err := vfVScanDial()
 	if err != nil {
 		t.Fatalf("cannot read how dial() is composed: %v", err)
 	}
-	return &vDriver{t: t, out: out, op: op, src: src, r: r, seen: map[string]bool{}}
+	return &vfVDriver{t: t, out: out, op: op, src: src, r: r, seen: map[string]bool{}}
 }
 
 func verifC10Dialer(t *testing.T, r *vfh.Rand, out *vfh.Out) {
-	v := vNewDriver(t, r, out, "d10")
+	v := vfVNewDriver(t, r, out, "d10")
 	depth := 4
 	if vfh.Thorough() {
 		depth = 6
 	}
 	// (1) exhaustive: every run of <= depth outcomes over all dial and task outcome classes,
 	// a cancellation inside every positive wait; both modes (Monitor: no autoconf calls)
-	v.dfs(vScript{adv: false, ac0: true}, depth, vPlainAlphabet())
-	v.dfs(vScript{adv: true, ac0: true}, depth-1, vPlainAlphabet())
+	v.dfs(vfVScript{adv: false, ac0: true}, depth, vfVPlainAlphabet())
+	v.dfs(vfVScript{adv: true, ac0: true}, depth-1, vfVPlainAlphabet())
 	// (2) around the 50-attempt limit and the 3 s cap
 	v.limit(false)
 	// (3) random long scripts
@@ -902,7 +902,7 @@ func verifC10Dialer(t *testing.T, r *vfh.Rand, out *vfh.Out) {
 }
 
 func verifC11(t *testing.T, r *vfh.Rand, out *vfh.Out) {
-	v := vNewDriver(t, r, out, "d11")
+	v := vfVNewDriver(t, r, out, "d11")
 	depth := 4
 	if vfh.Thorough() {
 		depth = 6
@@ -914,16 +914,16 @@ func verifC11(t *testing.T, r *vfh.Rand, out *vfh.Out) {
 		if vfh.Thorough() && !ac0 {
 			d = depth - 1
 		}
-		v.dfs(vScript{adv: true, ac0: ac0}, d, vFaultAlphabet())
+		v.dfs(vfVScript{adv: true, ac0: ac0}, d, vfVFaultAlphabet())
 	}
-	v.dfs(vScript{adv: false, ac0: true}, depth, vPlainAlphabet())
+	v.dfs(vfVScript{adv: false, ac0: true}, depth, vfVPlainAlphabet())
 	// (2) clean-up and restore across the 50-attempt limit
 	v.limit(true)
 	// (3) random long scripts with State faults
 	v.random(vfh.N(1500, 40000), true)
 	// (4) opportunistic: the real dial() on a real interface
-	vRealDial(t, out)
-	vRealDialModes(t, out)
+	vfVRealDial(t, out)
+	vfVRealDialModes(t, out)
 	verifSysctl(t, r, out)
 	verifSysctlConc(t, r, out)
 	t.Logf("C11: %d runs, %d distinct cases", v.runs, len(v.seen))
@@ -932,11 +932,11 @@ func verifC11(t *testing.T, r *vfh.Rand, out *vfh.Out) {
 // ---------------------------------------------------------------------------------------------
 // opportunistic: the real (*Dialer).dial() with a State whose disabling write fails
 
-type vRealState struct{ fail bool }
+type vfVRealState struct{ fail bool }
 
-func (s *vRealState) IPv6Autoconf(string) (bool, error)   { return true, nil }
-func (s *vRealState) IPv6Forwarding(string) (bool, error) { return true, nil }
-func (s *vRealState) SetIPv6Autoconf(string, bool) error {
+func (s *vfVRealState) IPv6Autoconf(string) (bool, error)   { return true, nil }
+func (s *vfVRealState) IPv6Forwarding(string) (bool, error) { return true, nil }
+func (s *vfVRealState) SetIPv6Autoconf(string, bool) error {
 	if s.fail {
 		return errors.New("injected failure of SetIPv6Autoconf")
 	}
@@ -944,24 +944,24 @@ func (s *vRealState) SetIPv6Autoconf(string, bool) error {
 }
 
 // vRecState records the State calls made by the real dial()/done() (never touches the host).
-type vRecState struct {
+type vfVRecState struct {
 	ac   bool
 	toks *vfh.Toks
 }
 
-func (s *vRecState) IPv6Autoconf(string) (bool, error) {
-	s.toks.S("g" + vBs(s.ac))
+func (s *vfVRecState) IPv6Autoconf(string) (bool, error) {
+	s.toks.S("g" + vfVBs(s.ac))
 	return s.ac, nil
 }
-func (s *vRecState) IPv6Forwarding(string) (bool, error) { return true, nil }
-func (s *vRecState) SetIPv6Autoconf(_ string, v bool) error {
-	s.toks.S("s" + vBs(v))
+func (s *vfVRecState) IPv6Forwarding(string) (bool, error) { return true, nil }
+func (s *vfVRecState) SetIPv6Autoconf(_ string, v bool) error {
+	s.toks.S("s" + vfVBs(v))
 	s.ac = v
 	return nil
 }
 
 
-func vBs(b bool) string {
+func vfVBs(b bool) string {
 	if b {
 		return "1"
 	}
@@ -972,7 +972,7 @@ func vBs(b bool) string {
 // the real dial() makes in Advertise / Monitor mode for both initial autoconf values, a marker
 // when dial() has returned, the calls made by the connection's done(), and the change in open
 // file descriptors over the whole bracket.
-func vRealDialModes(t *testing.T, out *vfh.Out) {
+func vfVRealDialModes(t *testing.T, out *vfh.Out) {
 	defer func() {
 		if r := recover(); r != nil {
 			t.Logf("C11 real dial() modes: panic: %v", r)
@@ -996,9 +996,9 @@ func vRealDialModes(t *testing.T, out *vfh.Out) {
 			if adv {
 				mode = Advertise
 			}
-			st := &vRecState{ac: ac0, toks: new(vfh.Toks)}
+			st := &vfVRecState{ac: ac0, toks: new(vfh.Toks)}
 			d := NewDialer(iface, st, mode, nil)
-			before, _ := vCountFDs()
+			before, _ := vfVCountFDs()
 			dctx, err := d.dial()
 			if err != nil {
 				out.Line("rdm 0 0 0", "skip")
@@ -1008,14 +1008,14 @@ func vRealDialModes(t *testing.T, out *vfh.Out) {
 			if err := dctx.done(); err != nil {
 				st.toks.S("done-failed")
 			}
-			after, _ := vCountFDs()
+			after, _ := vfVCountFDs()
 			st.toks.N(after - before)
 			out.Line(new(vfh.Toks).S("rdm").N(1).B(adv).B(ac0).String(), st.toks.String())
 		}
 	}
 }
 
-func vCountFDs() (int, error) {
+func vfVCountFDs() (int, error) {
 	es, err := os.ReadDir("/proc/self/fd")
 	if err != nil {
 		return 0, err
@@ -1026,7 +1026,7 @@ func vCountFDs() (int, error) {
 // vRealDial writes `rd 1 n | delta` (delta = open file descriptors after n failing dial()
 // calls minus before) or `rd 0 0 | skip` when the environment does not permit the run.  It never
 // fails the harness.
-func vRealDial(t *testing.T, out *vfh.Out) {
+func vfVRealDial(t *testing.T, out *vfh.Out) {
 	skip := func(why string) {
 		t.Logf("C11 real dial(): not run: %s", why)
 		out.Line("rd 0 0", "skip")
@@ -1050,7 +1050,7 @@ func vRealDial(t *testing.T, out *vfh.Out) {
 		skip(err.Error())
 		return
 	}
-	st := &vRealState{}
+	st := &vfVRealState{}
 	d := NewDialer(iface, st, Advertise, nil)
 	// warm-up (netpoller, resolver files): one successful dial, cleaned up
 	dctx, err := d.dial()
@@ -1064,7 +1064,7 @@ func vRealDial(t *testing.T, out *vfh.Out) {
 	}
 	old := debug.SetGCPercent(-1) // no finalizer may close a leaked socket while we count
 	defer debug.SetGCPercent(old)
-	before, err := vCountFDs()
+	before, err := vfVCountFDs()
 	if err != nil {
 		skip(err.Error())
 		return
@@ -1079,7 +1079,7 @@ func vRealDial(t *testing.T, out *vfh.Out) {
 			return
 		}
 	}
-	after, err := vCountFDs()
+	after, err := vfVCountFDs()
 	if err != nil {
 		skip(err.Error())
 		return
